@@ -29,6 +29,7 @@ import (
 
 	"diagonal.works/b6/encoding"
 	"verif/kit"
+	"verif/racekit"
 )
 
 // ---------------------------------------------------------------- plumbing
@@ -1096,6 +1097,10 @@ func mapSections(tier string) []section {
 // ---------------------------------------------------------------- main
 
 func main() {
+	if n, ok := racekit.BodyMode(); ok {
+		raceBodies(n)
+		return
+	}
 	kit.Main(&kit.Check{
 		ID:    "C09",
 		Level: "model_checking",
@@ -1140,6 +1145,7 @@ func main() {
 			secs = append(secs, byteArraysSections(tier)...)
 			secs = append(secs, mapSections(tier)...)
 			secs = append(secs, concurrentSections(tier)...)
+			secs = append(secs, raceSection(tier))
 			sp := &space{secs: secs}
 			var parts []string
 			for _, s := range secs {
